@@ -58,6 +58,8 @@ func checkC09(ctx *Ctx, r *Report) {
 	c09GoEnvelopeConstants(ctx, r)
 	c09PythonUnionCollectionBranches(ctx, r)
 	c16ThirdHunt(ctx, r)
+	c09FifthHunt(ctx, r)
+	c08UnionReuseComparesBranches(ctx, r)
 }
 
 // (1a) order of derivation, veneers, nil checks
@@ -1653,4 +1655,163 @@ func c09CueConstraintsThroughReferences(ctx *Ctx, r *Report) {
 		r.Check(single, "frontier/cue-constraints-through-references", "simplecue.declareStringConstraints follows a reference standing alone", fd.Pos(), "a value that is only a reference (once its default is removed) is dereferenced",
 			"`#Name | *\"abc\"` is, once the default is removed, the reference #Name alone: nothing is read from it and the string has no constraint at all")
 	}
+}
+
+// c09FifthHunt — fourth hunt:
+//   - Python: the modules a builders file imports are known under the name of their package; the builder jenny formats
+//     the names of methods and factories with a function that knows those names (a method `demo` in package demo takes
+//     the place of the module in every annotation written after it — the builders module can not be imported);
+//   - the bounds of an integer are integers: walkNumber of the JSON Schema input does not hand the result of
+//     (*big.Rat).Float64 to a constraint directly (2^53+1 would be rounded, MaxInt64 would become a float constant that
+//     overflows int64 in the generated Go), and getArgs of the OpenAPI input tests the int64 range before converting a
+//     float64 (the conversion of a float beyond it is not defined: MaxInt64, read as 2^63, became MinInt64 on amd64).
+func c09FifthHunt(ctx *Ctx, r *Report) {
+	n := 0
+	// (a)
+	if fn := ctx.LookupMethod("internal/jennies/python", "Builder", "generateBuilder"); fn == nil {
+		r.Undecided("anchor lost: python.Builder.generateBuilder")
+	} else if fd, p := ctx.DeclOf(fn); fd != nil {
+		info := p.TypesInfo
+		// maps filled from the packages of the schemas
+		packageSets := map[types.Object]bool{}
+		ast.Inspect(fd.Body, func(m ast.Node) bool {
+			rs, ok := m.(*ast.RangeStmt)
+			if !ok || !strings.HasSuffix(exprString(rs.X), ".Schemas") {
+				return true
+			}
+			ast.Inspect(rs.Body, func(k ast.Node) bool {
+				as, ok := k.(*ast.AssignStmt)
+				if !ok || len(as.Lhs) != 1 {
+					return true
+				}
+				if ix, ok := ast.Unparen(as.Lhs[0]).(*ast.IndexExpr); ok && strings.HasSuffix(exprString(ix.Index), ".Package") {
+					if id, ok := ast.Unparen(ix.X).(*ast.Ident); ok {
+						packageSets[objOf(info, id)] = true
+					}
+				}
+				return true
+			})
+			return true
+		})
+		knows := false
+		ast.Inspect(fd.Body, func(m ast.Node) bool {
+			kv, ok := m.(*ast.KeyValueExpr)
+			if !ok {
+				return true
+			}
+			if bl, ok := kv.Key.(*ast.BasicLit); !ok || bl.Value != `"formatFunctionName"` {
+				return true
+			}
+			ast.Inspect(kv.Value, func(k ast.Node) bool {
+				if id, ok := k.(*ast.Ident); ok && packageSets[objOf(info, id)] {
+					knows = true
+				}
+				return true
+			})
+			return true
+		})
+		n++
+		r.Check(knows, "kinds/python-method-names-spare-modules", "python.Builder.generateBuilder formats method names", fd.Pos(), "with a function that knows the packages of the schemas, imported as modules under their name",
+			"the builder templates name methods and factories with the global formatFunctionName, which knows nothing of the modules the file imports (`from ..models import demo`): `Obj: {demo?: string, kind?: Kind}` in package demo gives `def demo(self, …)` then `def kind(self, kind: demo.Kind)` — AttributeError: 'function' object has no attribute 'Kind', the builders module can not be imported")
+	}
+	// (b)
+	if fp := ctx.Pkg("internal/jsonschema"); fp == nil {
+		r.Undecided("anchor lost: internal/jsonschema")
+	} else if fd := c12Method(fp, "walkNumber"); fd == nil {
+		r.Undecided("anchor lost: jsonschema.generator.walkNumber")
+	} else {
+		info := fp.TypesInfo
+		// variables holding the first result of (*big.Rat).Float64
+		rounded := map[types.Object]bool{}
+		ast.Inspect(fd.Body, func(m ast.Node) bool {
+			as, ok := m.(*ast.AssignStmt)
+			if !ok || len(as.Rhs) != 1 || len(as.Lhs) == 0 {
+				return true
+			}
+			if c, ok := ast.Unparen(as.Rhs[0]).(*ast.CallExpr); ok {
+				if f := callee(info, c); f != nil && f.FullName() == "(*math/big.Rat).Float64" {
+					if id, ok := as.Lhs[0].(*ast.Ident); ok {
+						rounded[objOf(info, id)] = true
+					}
+				}
+			}
+			return true
+		})
+		constraints, bad := 0, 0
+		ast.Inspect(fd.Body, func(m ast.Node) bool {
+			cl, ok := m.(*ast.CompositeLit)
+			if !ok || namedName(info.TypeOf(cl)) != "TypeConstraint" {
+				return true
+			}
+			constraints++
+			for _, el := range cl.Elts {
+				kv, ok := el.(*ast.KeyValueExpr)
+				if !ok || exprString(kv.Key) != "Args" {
+					continue
+				}
+				ast.Inspect(kv.Value, func(k ast.Node) bool {
+					if id, ok := k.(*ast.Ident); ok && rounded[objOf(info, id)] {
+						bad++
+					}
+					return true
+				})
+			}
+			return true
+		})
+		if constraints == 0 {
+			r.Undecided("anchor changed: jsonschema.walkNumber builds no constraint")
+		} else {
+			n++
+			r.Check(bad == 0, "frontier/integer-bounds-exact", "jsonschema.walkNumber reads the bounds of a number", fd.Pos(), "no constraint takes the float64 reading of a bound as it is",
+				fmt.Sprintf("%d constraint(s) of walkNumber take the result of (*big.Rat).Float64 whatever the kind of the number: `\"type\": \"integer\", \"maximum\": 9007199254740993` is bound by 9007199254740992 (the valid 2^53+1 is refused by Build() and by the Python option), and `\"maximum\": 9223372036854775807` gives `<= 9.223372036854776e+18` — truncated to int64, the Go package does not compile", bad))
+		}
+	}
+	if fn := ctx.LookupFunc("internal/openapi", "getArgs"); fn == nil {
+		r.Undecided("anchor lost: openapi.getArgs")
+	} else if fd, p := ctx.DeclOf(fn); fd != nil {
+		info := p.TypesInfo
+		converts := false
+		ast.Inspect(fd.Body, func(m ast.Node) bool {
+			if c, ok := m.(*ast.CallExpr); ok && len(c.Args) == 1 {
+				if tv, ok := info.Types[c.Fun]; ok && tv.IsType() {
+					if b, ok := tv.Type.Underlying().(*types.Basic); ok && b.Kind() == types.Int64 {
+						if at, ok := info.TypeOf(c.Args[0]).Underlying().(*types.Basic); ok && at.Info()&types.IsFloat != 0 {
+							converts = true
+						}
+					}
+				}
+			}
+			return true
+		})
+		tested := map[string]bool{}
+		ast.Inspect(fd.Body, func(m ast.Node) bool {
+			var conds []ast.Expr
+			switch x := m.(type) {
+			case *ast.IfStmt:
+				conds = append(conds, x.Cond)
+			case *ast.CaseClause:
+				conds = append(conds, x.List...)
+			}
+			for _, cond := range conds {
+				ast.Inspect(cond, func(k ast.Node) bool {
+					if id, ok := k.(*ast.Ident); ok {
+						if c, ok := info.Uses[id].(*types.Const); ok && c.Pkg() != nil && c.Pkg().Path() == "math" {
+							tested[c.Name()] = true
+						}
+					}
+					return true
+				})
+			}
+			return true
+		})
+		if converts {
+			n++
+			r.Check(tested["MaxInt64"] && tested["MinInt64"], "frontier/integer-bounds-exact", "openapi.getArgs converts a float64 bound to int64", fd.Pos(), "after testing it against both ends of the int64 range",
+				"getArgs converts the float64 kin-openapi read without a range test: `type: integer, format: int64, maximum: 9223372036854775807` is read as 2^63, whose conversion is not defined — `must be <= -9223372036854775808` on amd64: every argument is refused, by Build() and by the Python option")
+		} else {
+			n++
+		}
+	}
+	r.Count("hunted clauses of the builders (5th hunt)", n)
+	r.Floor("hunted clauses of the builders (5th hunt)", 3)
 }
